@@ -15,10 +15,16 @@ EXTENDS PegVM, Json, IOUtils
 
 Recs   == ndJsonDeserialize(IOEnv.JUDGE_IN)
 OUTDIR == IOEnv.JUDGE_OUT
-Bodies == [s \in 1..Len(Recs) |-> BodyMap(Core(Recs[s].sc.grammar))]
+Bodies == [s \in 1..Len(Recs) |-> BodyMap(ShapeG(Core(Recs[s].sc.grammar)))]
+
+\* -switch units run on the bodies that the transcribed optimiser passes produce (Optimizer!OptGrammarCode, repaired rules)
+OZ == INSTANCE Optimizer WITH RewriteNullable <- FALSE, SkipThroughAll <- FALSE, FirstPasses <- 0
+InAlphaOf(s) == UNION {{Recs[s].sc.inputs[k].r[j] : j \in 1..Len(Recs[s].sc.inputs[k].r)} :
+                       k \in {x \in 1..Len(Recs[s].sc.inputs) : "r" \in DOMAIN Recs[s].sc.inputs[x]}}
+SwBodies == [s \in 1..Len(Recs) |-> OZ!OptGrammarCode(Bodies[s], InAlphaOf(s), Recs[s].sc.grammar.rules[1].name)]
 
 HasEvs(r) == "evs" \in DOMAIN r /\ r.pn = ""
-Traces == UNION {{<<s, u, j>> : u \in {x \in 1..Len(Recs[s].units) : Recs[s].units[x].opt \in {"", "i"}},
+Traces == UNION {{<<s, u, j>> : u \in {x \in 1..Len(Recs[s].units) : Recs[s].units[x].opt \in {"", "i", "s", "is"}},
                                j \in 1..600} : s \in 1..Len(Recs)}
 Valid(T) == T[3] <= Len(Recs[T[1]].units[T[2]].runs) /\ HasEvs(Recs[T[1]].units[T[2]].runs[T[3]])
 
@@ -40,7 +46,9 @@ InlinedSet(s) ==
   {r \in reach \ {first} : SumOcc(B, reach, r) = 1} \cup {ActName(k) : k \in 0..63}
 Inl == [s \in 1..Len(Recs) |-> InlinedSet(s)]
 Run == Recs[T[1]].units[T[2]].runs[T[3]]
-InlOf == IF Recs[T[1]].units[T[2]].opt = "i" THEN Inl[T[1]] ELSE {}
+OptOf == Recs[T[1]].units[T[2]].opt
+InlOf == IF OptOf \in {"i", "is"} THEN Inl[T[1]] ELSE {}
+BodiesOf == IF OptOf \in {"s", "is"} THEN SwBodies[T[1]] ELSE Bodies[T[1]]
 Sc == Recs[T[1]].sc
 Pl == Sc.plan[Run.c]
 EntryOf == IF Pl.entry = "" THEN Sc.grammar.rules[1].name ELSE Pl.entry
@@ -52,7 +60,7 @@ Init == /\ T \in {t \in Traces : Valid(t)}
 MinI(a, b) == IF a < b THEN a ELSE b
 StepAndCompare ==
   /\ ~Done /\ rejected = <<>>
-  /\ StepInl(Bodies[T[1]], Run.w, Pl.memo, InlOf)
+  /\ StepSw(BodiesOf, Run.w, Pl.memo, InlOf)
   /\ LET n == Len(ev')
          got == SubSeq(Run.evs, l, MinI(l + n - 1, Len(Run.evs)))
      IN IF ev' = got THEN l' = l + n /\ rejected' = <<>>
@@ -73,7 +81,7 @@ ClassOf(rj) ==
        IF "hit" \in ks THEN "hit" ELSE IF "add" \in ks THEN "add" ELSE IF "store" \in ks THEN "store" ELSE "control"
 Report ==
   /\ rejected # <<>> /\ ~reported /\ reported' = TRUE
-  /\ ndJsonSerialize(OUTDIR \o "/l2_" \o ToString(T[1]) \o "_" \o ToString(T[3]) \o ".ndjson",
+  /\ ndJsonSerialize(OUTDIR \o "/l2_" \o ToString(Sc.id) \o "_" \o ToString(T[2]) \o "_" \o ToString(T[3]) \o ".ndjson",
        <<[kind |-> "l2", id |-> Sc.id, opt |-> Recs[T[1]].units[T[2]].opt, i |-> Run.i, c |-> Run.c, h |-> Run.h, s |-> Run.s, w |-> Run.w,
           field |-> rejected[1], class |-> ClassOf(rejected), at |-> rejected[2], want |-> rejected[3], got |-> rejected[4],
           state |-> [pos |-> pos, tix |-> tix, st |-> st, live |-> SubSeq(tree, 1, MinI(tix, Len(tree)))]]>>)
